@@ -78,10 +78,10 @@ Definition apply_pick (pick : nat -> item -> option str) (g : str -> item -> ite
   match pick l it with Some x => g x it | None => it end.
 
 (* ---- ZIDs: every item without one gets the ZID chosen for its line ---- *)
-Definition needs_zid (it : item) : bool := match i_ident it with IPlain _ | ILong _ => true | _ => false end.
+Definition needs_zid (it : item) : bool := match i_ident it with IPlain _ | ILong _ | IMod _ => true | _ => false end.
 Definition with_zid (z : str) (it : item) : item :=
   mkItem (i_kind it) (i_prio it) (IZid z)
-         (match i_ident it with IPlain s => WId s :: i_words it | _ => i_words it end).
+         (match i_ident it with IPlain s | IMod s => WId s :: i_words it | _ => i_words it end).
 Definition pick_zid (zf : nat -> str) (l : nat) (it : item) : option str :=
   if needs_zid it then Some (zf l) else None.
 
@@ -103,7 +103,7 @@ Definition lacks (c : ascii) (w : str) : bool := forallb (fun x => negb (ceqb x 
 Definition six_dig (w : str) : bool := (length w =? 6)%nat && forallb is_digit w.
 Definition zidless_okb (it : item) : bool :=
   match i_ident it with
-  | IPlain s => negb (is_prio_word s) && negb (datelike10 s)
+  | IPlain s | IMod s => negb (is_prio_word s) && negb (datelike10 s)
   | ILong d => negb (is_prio_word d) && datelike10 d && match i_words it with [] => false | _ => true end
   | _ => false
   end.
